@@ -79,6 +79,7 @@ func c29lCheck(c c29lCase, res *batch.Result, run runFunc, r *ev.Recorder) *Fail
 			if len(pattern) > 0 {
 				asg = pattern[i%len(pattern)]
 			}
+			sb.WriteString(c.B.lead(altOf[asg]))
 			for j := 0; j < m; j++ {
 				if asg&(1<<j) != 0 {
 					sb.WriteByte('T')
